@@ -47,7 +47,7 @@ func (g *genC04) Config(rng *Rng, tier string) Config {
 		c.PoorAccts = []int{1 + rng.Intn(4)}
 		c.PoorBalance = rng.Pick64(0, 1, 1000, 10_000_000)
 	}
-	g.net = newNet(rng, []string{"tx_dup", "tx_delay", "tx_reorder", "out_of_gas", "crash_restart"}, 5)
+	g.net = newNet(rng, []string{"tx_dup", "tx_delay", "tx_reorder", "out_of_gas", "crash_restart", "multi_msg"}, 5)
 	g.nb = 25 + rng.Intn(30)
 	if tier == "thorough" {
 		g.nb = 30 + rng.Intn(70)
